@@ -44,6 +44,34 @@ def trees(depth: int) -> List[Any]:
     return out
 
 
+def trees_by_size(max_leaves: int) -> List[Any]:
+    """Every tree over {q, cmp, not, and, or} with at most max_leaves leaves (a negation is not directly repeated)."""
+    memo: Dict[Tuple[int, int], List[Any]] = {}
+
+    def gen(n: int, nots: int) -> List[Any]:
+        key = (n, nots)
+        if key in memo:
+            return memo[key]
+        out: List[Any] = []
+        if n == 1:
+            out += [("q", 0), ("cmp", 0)]
+        if nots < 1:
+            for t in gen(n, nots + 1):
+                out.append(("not", t))
+        for k in range(1, n):
+            for a in gen(k, 0):
+                for b in gen(n - k, 0):
+                    out.append(("and", a, b))
+                    out.append(("or", a, b))
+        memo[key] = out
+        return out
+
+    res: List[Any] = []
+    for n in range(1, max_leaves + 1):
+        res += gen(n, 0)
+    return res
+
+
 def relabel(t: Any, counter: List[int]) -> Any:
     if t[0] in ("q", "cmp"):
         counter[0] += 1
@@ -267,7 +295,7 @@ def check_grouping(model: Model, report: Report, rule: str) -> None:
     depth = 2
     base = trees(depth)
     if report.tier == "thorough":
-        base = trees(2) + [("and", a, ("not", b)) for a in trees(2)[:40] for b in trees(1)[:10]]
+        base = trees(2) + trees_by_size(3)
     # function arguments: each depth-1 tree as the argument of a call, at top level, under '!' and in '&&'
     t1 = trees(1)
     base += [("call", [a]) for a in t1] + [("not", ("call", [a])) for a in t1] + [("and", ("call", [a]), ("q", 0)) for a in t1]
